@@ -603,7 +603,13 @@ def slerp(q0, q1, s, shortest=False):
     if abs(theta) > 10 * _eps:
         s0 = math.sin((1 - s) * theta)
         s1 = math.sin(s * theta)
-        return ((q0 * s0) + (q1 * s1)) / math.sin(theta)
+        q = ((q0 * s0) + (q1 * s1)) / math.sin(theta)
+        # the blend is ill-conditioned for nearly antipodal quaternions (sin(theta) -> 0):
+        # keep the result on the unit sphere
+        n = np.linalg.norm(q)
+        if n > 0:
+            q = q / n
+        return q
     else:
         # quaternions are identical
         return q0
